@@ -191,7 +191,7 @@ theorem inv_step {tbl : List (α × α)} (hinj : TableInj tbl) {s s' : St α} {l
           Option.toList_some, List.map_nil, List.count_nil] at this ⊢
         omega
       · exact inv
-    | rxMatch found =>
+    | rxMatch found took =>
       simp only [stepF]
       simp only [enabled] at hen
       split
@@ -199,9 +199,9 @@ theorem inv_step {tbl : List (α × α)} (hinj : TableInj tbl) {s s' : St α} {l
         rw [hl] at hen
         simp only [Bool.and_eq_true, beq_iff_eq, Option.isNone_iff_eq_none, lockFree, Bool.not_true, Bool.false_or,
           Bool.or_eq_true] at hen
-        obtain ⟨⟨hset, hlock'⟩, hfound⟩ := hen
+        obtain ⟨⟨⟨hset, hlock'⟩, hfound⟩, htook⟩ := hen
         unfold rxMatchF
-        simp only [hfound, if_true]
+        simp only [hfound, htook, and_self, if_true]
         split
         · next e hm =>
           have hlock : s.txTest = none := by
@@ -255,15 +255,17 @@ theorem inv_step {tbl : List (α × α)} (hinj : TableInj tbl) {s s' : St α} {l
       split
       · exact ⟨inv.keys, inv.ans, inv.ansSet, inv.park, inv.parkHold, inv.seqs⟩
       · exact inv
-    | rxCleanup removed =>
+    | rxCleanup removed took =>
       simp only [stepF]
       simp only [enabled] at hen
       split
       · next i hc =>
         rw [hc] at hen
-        simp only [Bool.and_eq_true, lockFree, Bool.not_true, Bool.false_or, Option.isNone_iff_eq_none] at hen
-        have hlock := hen.1
+        simp only [Bool.and_eq_true, lockFree, Bool.not_true, Bool.false_or, Option.isNone_iff_eq_none,
+          beq_iff_eq] at hen
+        have hlock := hen.1.1
         unfold rxCleanupF
+        simp only [hen.1.2, hen.2, and_self, if_true]
         split
         · split
           · refine ⟨?_, inv.ans, inv.ansSet, ?_, ?_, inv.seqs⟩
@@ -373,6 +375,182 @@ theorem checkRun_spec {tbl : List (α × α)} {locked : Bool} {ls : List (Label 
   split at h
   · next s hs => exact ⟨s, reachable_of_run ls {} s 0 Reachable.init hs, h⟩
   · cases h
+
+end
+end Frappy.Client.Match
+
+/-! ### a lone `disconnect` releases everything -/
+namespace Frappy.Client.Match
+open Frappy.Spec.C11
+section
+variable {α : Type} [DecidableEq α]
+
+/-- the actions of one `disconnect()` that runs alone: flag, drain `txq`, pop `active_requests`, drain `pending`,
+setting every event on the way -/
+def drainLabels (s : St α) : List (Label α) :=
+  .closeBegin :: (s.txq.flatMap (fun e => [.closeTxq, .closeSet e.id])
+    ++ (s.active.flatMap (fun p => [.closeActive, .closeSet p.2.id])
+    ++ s.pending.flatMap (fun e => [.closePending, .closeSet e.id])))
+
+theorem run_append {tbl : List (α × α)} {locked : Bool} :
+    ∀ (a b : List (Label α)) (s s1 : St α) (i : Nat), run tbl locked s a i = .ok s1 →
+      run tbl locked s (a ++ b) i = run tbl locked s1 b (i + a.length) := by
+  intro a
+  induction a with
+  | nil => intro b s s1 i h; simp only [run] at h; cases h; simp
+  | cons l t ih =>
+    intro b s s1 i h
+    simp only [run, List.cons_append] at h ⊢
+    split at h
+    · next s2 hs =>
+      rw [ih b s2 s1 (i + 1) h]
+      simp only [List.length_cons]
+      congr 1
+      omega
+    · cases h
+
+theorem step_of_enabled {tbl : List (α × α)} {locked : Bool} {s : St α} {l : Label α}
+    (h : enabled tbl locked s l = true) : step tbl locked s l = some (stepF tbl s l) := by
+  simp [step, h]
+
+/-- what one drain phase of a lone `disconnect` leaves behind -/
+structure Drained (s s' : St α) (ids : List Nat) : Prop where
+  relHold : s'.relHold = []
+  closing : s'.closing = true
+  txTest : s'.txTest = s.txTest
+  delivered : s'.delivered = s.delivered
+  keep : ∀ x ∈ s.released, x ∈ s'.released
+  got : ∀ x ∈ ids, x ∈ s'.released
+
+theorem drain_txq {tbl : List (α × α)} {locked : Bool} :
+    ∀ (q : List (Entry α)) (s : St α) (i : Nat), s.txq = q → s.closing = true → s.relHold = [] →
+      ∃ s', run tbl locked s (q.flatMap (fun e => [Label.closeTxq, Label.closeSet e.id])) i = .ok s' ∧
+        s'.txq = [] ∧ s'.active = s.active ∧ s'.pending = s.pending ∧ Drained s s' (q.map (·.id)) := by
+  intro q
+  induction q with
+  | nil =>
+    intro s i hq hc hr
+    exact ⟨s, by simp [run], hq, rfl, rfl, ⟨hr, hc, rfl, rfl, fun _ h => h, by simp⟩⟩
+  | cons e t ih =>
+    intro s i hq hc hr
+    have e1 : step tbl locked s Label.closeTxq = some (stepF tbl s Label.closeTxq) :=
+      step_of_enabled (by simp [enabled, hq, hc])
+    have e2 : step tbl locked (stepF tbl s Label.closeTxq) (Label.closeSet e.id)
+        = some (stepF tbl (stepF tbl s Label.closeTxq) (Label.closeSet e.id)) :=
+      step_of_enabled (by simp [enabled, stepF, hq])
+    obtain ⟨s', hrun, h1, h2, h3, hd⟩ :=
+      ih (stepF tbl (stepF tbl s Label.closeTxq) (Label.closeSet e.id)) (i + 1 + 1)
+        (by simp [stepF, hq]) (by simp [stepF, hq, hc]) (by simp [stepF, hq, hr])
+    refine ⟨s', ?_, h1, ?_, ?_, ⟨hd.relHold, hd.closing, ?_, ?_, ?_, ?_⟩⟩
+    · simp only [List.flatMap_cons, List.cons_append, List.nil_append, run, e1, e2]
+      exact hrun
+    · rw [h2]; simp [stepF, hq]
+    · rw [h3]; simp [stepF, hq]
+    · rw [hd.txTest]; simp [stepF, hq]
+    · rw [hd.delivered]; simp [stepF, hq]
+    · intro x hx; exact hd.keep x (by simp [stepF, hq, hx])
+    · intro x hx
+      rcases List.mem_cons.1 hx with h | h
+      · subst h; exact hd.keep _ (by simp [stepF, hq])
+      · exact hd.got x h
+
+theorem drain_active {tbl : List (α × α)} {locked : Bool} :
+    ∀ (q : List (Key α × Entry α)) (s : St α) (i : Nat), s.active = q → s.closing = true → s.relHold = [] →
+      s.txTest = none →
+      ∃ s', run tbl locked s (q.flatMap (fun p => [Label.closeActive, Label.closeSet p.2.id])) i = .ok s' ∧
+        s'.active = [] ∧ s'.txq = s.txq ∧ s'.pending = s.pending ∧ Drained s s' (q.map (·.2.id)) := by
+  intro q
+  induction q with
+  | nil =>
+    intro s i hq hc hr _
+    exact ⟨s, by simp [run], hq, rfl, rfl, ⟨hr, hc, rfl, rfl, fun _ h => h, by simp⟩⟩
+  | cons p t ih =>
+    obtain ⟨k, e⟩ := p
+    intro s i hq hc hr ht
+    have e1 : step tbl locked s Label.closeActive = some (stepF tbl s Label.closeActive) :=
+      step_of_enabled (by simp [enabled, hq, hc, lockFree, ht])
+    have e2 : step tbl locked (stepF tbl s Label.closeActive) (Label.closeSet e.id)
+        = some (stepF tbl (stepF tbl s Label.closeActive) (Label.closeSet e.id)) :=
+      step_of_enabled (by simp [enabled, stepF, hq])
+    obtain ⟨s', hrun, h1, h2, h3, hd⟩ :=
+      ih (stepF tbl (stepF tbl s Label.closeActive) (Label.closeSet e.id)) (i + 1 + 1)
+        (by simp [stepF, hq]) (by simp [stepF, hq, hc]) (by simp [stepF, hq, hr]) (by simp [stepF, hq, ht])
+    refine ⟨s', ?_, h1, ?_, ?_, ⟨hd.relHold, hd.closing, ?_, ?_, ?_, ?_⟩⟩
+    · simp only [List.flatMap_cons, List.cons_append, List.nil_append, run, e1, e2]
+      exact hrun
+    · rw [h2]; simp [stepF, hq]
+    · rw [h3]; simp [stepF, hq]
+    · rw [hd.txTest]; simp [stepF, hq]
+    · rw [hd.delivered]; simp [stepF, hq]
+    · intro x hx; exact hd.keep x (by simp [stepF, hq, hx])
+    · intro x hx
+      rcases List.mem_cons.1 hx with h | h
+      · subst h; exact hd.keep _ (by simp [stepF, hq])
+      · exact hd.got x h
+
+theorem drain_pending {tbl : List (α × α)} {locked : Bool} :
+    ∀ (q : List (Entry α)) (s : St α) (i : Nat), s.pending = q → s.closing = true → s.relHold = [] →
+      s.txTest = none →
+      ∃ s', run tbl locked s (q.flatMap (fun e => [Label.closePending, Label.closeSet e.id])) i = .ok s' ∧
+        s'.pending = [] ∧ s'.txq = s.txq ∧ s'.active = s.active ∧ Drained s s' (q.map (·.id)) := by
+  intro q
+  induction q with
+  | nil =>
+    intro s i hq hc hr _
+    exact ⟨s, by simp [run], hq, rfl, rfl, ⟨hr, hc, rfl, rfl, fun _ h => h, by simp⟩⟩
+  | cons e t ih =>
+    intro s i hq hc hr ht
+    have e1 : step tbl locked s Label.closePending = some (stepF tbl s Label.closePending) :=
+      step_of_enabled (by simp [enabled, hq, hc, lockFree, ht])
+    have e2 : step tbl locked (stepF tbl s Label.closePending) (Label.closeSet e.id)
+        = some (stepF tbl (stepF tbl s Label.closePending) (Label.closeSet e.id)) :=
+      step_of_enabled (by simp [enabled, stepF, hq])
+    obtain ⟨s', hrun, h1, h2, h3, hd⟩ :=
+      ih (stepF tbl (stepF tbl s Label.closePending) (Label.closeSet e.id)) (i + 1 + 1)
+        (by simp [stepF, hq]) (by simp [stepF, hq, hc]) (by simp [stepF, hq, hr]) (by simp [stepF, hq, ht])
+    refine ⟨s', ?_, h1, ?_, ?_, ⟨hd.relHold, hd.closing, ?_, ?_, ?_, ?_⟩⟩
+    · simp only [List.flatMap_cons, List.cons_append, List.nil_append, run, e1, e2]
+      exact hrun
+    · rw [h2]; simp [stepF, hq]
+    · rw [h3]; simp [stepF, hq]
+    · rw [hd.txTest]; simp [stepF, hq]
+    · rw [hd.delivered]; simp [stepF, hq]
+    · intro x hx; exact hd.keep x (by simp [stepF, hq, hx])
+    · intro x hx
+      rcases List.mem_cons.1 hx with h | h
+      · subst h; exact hd.keep _ (by simp [stepF, hq])
+      · exact hd.got x h
+
+
+theorem drain_all {tbl : List (α × α)} {locked : Bool} (s : St α) (ht : s.txTest = none) (hr : s.relHold = []) :
+    ∃ s', run tbl locked s (drainLabels s) 0 = .ok s' ∧
+      AllReleased s' ((s.txq ++ s.active.map (·.2) ++ s.pending).map (·.id)) := by
+  have e0 : step tbl locked s Label.closeBegin = some (stepF tbl s Label.closeBegin) :=
+    step_of_enabled (by simp [enabled])
+  obtain ⟨s1, r1, a1, b1, c1, d1⟩ := drain_txq (tbl := tbl) (locked := locked) s.txq (stepF tbl s Label.closeBegin) 1
+    (by simp [stepF]) (by simp [stepF]) (by simp [stepF, hr])
+  have hact : s1.active = s.active := by rw [b1]; simp [stepF]
+  have hpen : s1.pending = s.pending := by rw [c1]; simp [stepF]
+  have ht1 : s1.txTest = none := by rw [d1.txTest]; simp [stepF, ht]
+  obtain ⟨s2, r2, a2, b2, c2, d2⟩ := drain_active (tbl := tbl) (locked := locked) s.active s1
+    (1 + (s.txq.flatMap (fun e => [Label.closeTxq, Label.closeSet e.id])).length) hact d1.closing d1.relHold ht1
+  have ht2 : s2.txTest = none := by rw [d2.txTest]; exact ht1
+  obtain ⟨s3, r3, a3, b3, c3, d3⟩ := drain_pending (tbl := tbl) (locked := locked) s.pending s2
+    (1 + (s.txq.flatMap (fun e => [Label.closeTxq, Label.closeSet e.id])).length
+      + (s.active.flatMap (fun p => [Label.closeActive, Label.closeSet p.2.id])).length)
+    (by rw [c2]; exact hpen) d2.closing d2.relHold ht2
+  refine ⟨s3, ?_, ?_⟩
+  · simp only [drainLabels, run, e0]
+    rw [run_append _ _ _ _ _ r1, run_append _ _ _ _ _ r2]
+    exact r3
+  · refine ⟨by rw [c3]; exact a2, a3, by rw [b3, b2]; exact a1, d3.relHold, ?_⟩
+    intro i hi
+    refine Or.inl ?_
+    simp only [List.map_append, List.mem_append, List.map_map] at hi
+    rcases hi with (h | h) | h
+    · exact d3.keep i (d2.keep i (d1.got i h))
+    · exact d3.keep i (d2.got i (by simpa [List.map_map] using h))
+    · exact d3.got i h
 
 end
 end Frappy.Client.Match
